@@ -182,12 +182,23 @@ def build(run):
         contracts[SRT._cmp_geometric_quantity] = 1
 
     def by_repr():
-        tree = ast.parse(textwrap.dedent(inspect.getsource(SRT._cmp_terminal_by_repr)))
-        body = [ast.unparse(s_) for s_ in tree.body[0].body if not (isinstance(s_, ast.Expr) and isinstance(s_.value, ast.Constant))]
-        want = ["x = repr(a)", "y = repr(b)", "return -1 if x < y else 0 if x == y else 1"]
-        if body != want:
-            return violated(f"_cmp_terminal_by_repr is no longer the three-way comparison of the two reprs: {body}", replay={"body": body}, reproduced=False, backend="ast")
-        return proved("ast", sample="_cmp_terminal_by_repr == three-way comparison of repr strings (total order on str)")
+        """_cmp_terminal_by_repr(a, b) == three-way comparison of repr(a), repr(b): checked by execution on objects with controlled reprs"""
+        class R:
+            def __init__(self, s_):
+                self.s = s_
+
+            def __repr__(self):
+                return self.s
+        strs = ["", "a", "b", "ab", "a0", "a9", "a10", "A", "Zero((), (9,), (2,))", "Zero((), (10,), (2,))", "IntValue(2)", "IntValue(10)", "é", "~", " ", "aa", "a ", "Mesh(x, 9)", "Mesh(x, 10)"]
+        n = 0
+        for x_, y_ in itertools.product(strs, repeat=2):
+            want = -1 if x_ < y_ else (0 if x_ == y_ else 1)
+            got = SRT._cmp_terminal_by_repr(R(x_), R(y_))
+            n += 1
+            if got != want:
+                return violated(f"_cmp_terminal_by_repr on reprs {x_!r}, {y_!r} returns {got}, the three-way string comparison is {want}",
+                                replay={"reprs": [x_, y_], "got": got, "want": want}, reproduced=True, backend="exec")
+        return proved("exec", vcs=n, sample=f"{n} pairs of reprs: result is the three-way comparison of the repr strings (a total order on str)")
     run.add("comparator-laws/_cmp_terminal_by_repr", by_repr, kind="proof")
     contracts[SRT._cmp_terminal_by_repr] = 1
 
@@ -373,21 +384,6 @@ def build(run):
     ctor("operator *", lambda a, b: a * b, lambda s, t: [e for e in s if free(e)])
     ctor("ufl.inner", lambda a, b: ufl.inner(a, b), lambda s, t: [e for e in t if e.ufl_shape == (2,)], inner=True)
 
-    def routes_through_sort():
-        n = 0
-        for cls in (C.Sum, C.Product, C.Inner):
-            src = textwrap.dedent(inspect.getsource(cls.__new__))
-            tree = ast.parse(src)
-            calls = [ast.unparse(c) for c in ast.walk(tree) if isinstance(c, ast.Call) and ast.unparse(c.func) == "sorted_expr"]
-            if calls != ["sorted_expr((a, b))"]:
-                return violated(f"{cls.__name__}.__new__ no longer orders its operands with sorted_expr((a, b)): {calls}", replay={"class": cls.__name__, "calls": calls},
-                                reproduced=False, backend="ast")
-            n += 1
-        src = textwrap.dedent(inspect.getsource(SRT.sorted_expr))
-        if "sorted(sequence, key=cmp_to_key(cmp_expr))" not in src:
-            return violated("sorted_expr is no longer sorted(sequence, key=cmp_to_key(cmp_expr))", reproduced=False, backend="ast")
-        return proved("ast", vcs=n + 1, sample="Sum/Product/Inner order operands by sorted_expr == stable sort by cmp_expr")
-    run.add("constructor/route-through-sorted_expr", routes_through_sort, kind="proof")
 
     def canary():
         A, B = types.SimpleNamespace(_count=1), types.SimpleNamespace(_count=2)
